@@ -46,8 +46,12 @@ func runDaemonHist(t *testing.T, rc *RunCtx, prop string) {
 	ch := rc.Ch
 	pop := stdFSPopulation(t)
 	all := `{"client-test01": {"Wallet 1": ["All"], "Wallet 2": ["All"]}}`
-	d := NewDaemon(t, rc, DaemonCfg{Pop: pop, PermissionsJSON: all, Pruning: ch.Pick(2, 0) == 1})
+	home := ch.Pick(4, 0) == 3
+	d := NewDaemon(t, rc, DaemonCfg{Pop: pop, PermissionsJSON: all, Pruning: ch.Pick(2, 0) == 1, HomeConfig: home})
 	defer d.Close()
+	if home {
+		rc.Stats.Inc("daemon_runs_configured_from_home_directory", 1)
+	}
 	ledger := NewLedger()
 	nKeys := 1 + ch.Pick(3, 0)
 	g := &histGen{rc: rc, ledger: ledger, pop: pop.Population, nKeys: nKeys, big: ch.Pick(3, 0) == 0}
